@@ -37,6 +37,7 @@ type World struct {
 	declOf map[*ssa.Function]ast.Node
 
 	NumInstr int
+	moved    map[string]*ssa.Function
 }
 
 func loadEnv(extra ...string) []string {
@@ -203,7 +204,7 @@ func (w *World) FnOpt(pkg, name string) *ssa.Function {
 		tn, mn := strings.TrimPrefix(name[:i], "*"), name[i+1:]
 		t := sp.Type(tn)
 		if t == nil {
-			return nil
+			return w.movedFn(pkg, tn, mn)
 		}
 		for _, typ := range []types.Type{types.NewPointer(t.Type()), t.Type()} {
 			sel := w.Prog.MethodSets.MethodSet(typ).Lookup(sp.Pkg, mn)
@@ -222,9 +223,52 @@ func (w *World) FnOpt(pkg, name string) *ssa.Function {
 				}
 			}
 		}
-		return nil
+		return w.movedFn(pkg, tn, mn)
 	}
-	return sp.Func(name)
+	if f := sp.Func(name); f != nil {
+		return f
+	}
+	return w.movedFn(pkg, "", name)
+}
+
+// movedFn: an anchor of the pinned tree that is gone under its name but whose body
+// lives on unchanged under another name / receiver (see movedFuncs).
+func (w *World) movedFn(pkg, recv, name string) *ssa.Function {
+	rel := "."
+	switch {
+	case pkg == "" || pkg == "rux":
+	case pkg == "server":
+		rel = "server"
+	default:
+		rel = "pkg/" + pkg
+	}
+	if w.moved == nil {
+		w.moved = map[string]*ssa.Function{}
+		cur := map[string]string{}
+		decl := map[string]*types.Func{}
+		for _, p := range w.Pkgs {
+			for _, f := range p.Syntax {
+				fn := p.Fset.PositionFor(f.Pos(), false).Filename
+				for _, d := range f.Decls {
+					if fd, ok := d.(*ast.FuncDecl); ok {
+						k := funcKey(w.Dir, fn, fd)
+						cur[k] = bodyHash(p.Fset, fd)
+						if o, ok := p.TypesInfo.Defs[fd.Name].(*types.Func); ok {
+							decl[k] = o
+						}
+					}
+				}
+			}
+		}
+		for oldK, newK := range movedFuncs(cur) {
+			if o := decl[newK]; o != nil {
+				if sf := w.Prog.FuncValue(o); sf != nil {
+					w.moved[oldK] = sf
+				}
+			}
+		}
+	}
+	return w.moved[rel+":"+recv+"."+name]
 }
 
 // Global resolves a package-level variable.
